@@ -184,7 +184,7 @@ pub fn run_lanemix<V: Vect>(ctx: &Ctx, g: &Graph<V>, total: &mut Collector) {
                     traces += cmp;
                     nontriv += obs as u64;
                 }
-                if (xi * 131 + yi * 17 + b) % 4099 == 0 {
+                if (xi * 131 + yi * 17 + b) % 257 == 0 {
                     c.sample(pv::splitmix(((a * 64 + b) as u64) << 24 | (xi as u64) << 12 | yi as u64), || json!({"sub": sub, "edge": [g.nodes[a].name, g.nodes[b].name], "x": to64(x), "y": to64(y), "splat_x": to64(rx[0]), "splat_y": to64(ry[0])}));
                 }
             }
@@ -335,7 +335,9 @@ pub fn run_vs_scalar<V: Vect>(ctx: &Ctx, gv: &Graph<V>, gs: &Graph<V::S>, total:
             if cnt[0] > before {
                 states += 1;
             }
-            c.sample(pv::splitmix((ci as u64) << 20 | i as u64 | 1 << 60), || json!({"sub": sub, "node": gv.nodes[a].name, "value": to64(v)}));
+            if i % 16 == 0 {
+                c.sample(pv::splitmix((ci as u64) << 20 | i as u64 | 1 << 60), || json!({"sub": sub, "node": gv.nodes[a].name, "value": to64(v)}));
+            }
         }
         c.add(&sub, states, cnt[1], cnt[2], states);
     });
@@ -443,7 +445,9 @@ pub fn run_f32_f64(ctx: &Ctx, g32: &Graph<f32>, g64: &Graph<f64>, total: &mut Co
             if cnt[0] > before {
                 states += 1;
             }
-            c.sample(pv::splitmix((ci as u64) << 20 | i as u64 | 2 << 60), || json!({"sub": sub, "node": g32.nodes[a].name, "value": to64(v)}));
+            if i % 16 == 0 {
+                c.sample(pv::splitmix((ci as u64) << 20 | i as u64 | 2 << 60), || json!({"sub": sub, "node": g32.nodes[a].name, "value": to64(v)}));
+            }
         }
         c.add(sub, states, cnt[1], cnt[2], states);
     });
